@@ -44,11 +44,21 @@ def _is_self_attr(node, name=None):
             and (name is None or node.attr == name))
 
 
+def _tests_inactive(test):
+    """`not self._active`, `self._active is False`, `self._active == False`"""
+    if isinstance(test, ast.UnaryOp) and isinstance(test.op, ast.Not):
+        return _is_self_attr(test.operand, "_active")
+    return (isinstance(test, ast.Compare) and _is_self_attr(test.left, "_active") and len(test.ops) == 1
+            and isinstance(test.ops[0], (ast.Is, ast.Eq)) and isinstance(test.comparators[0], ast.Constant)
+            and test.comparators[0].value is False)
+
+
 def _is_inactive_return(stmt):
-    """`if not self._active: return`"""
-    return (isinstance(stmt, ast.If) and isinstance(stmt.test, ast.UnaryOp) and isinstance(stmt.test.op, ast.Not)
-            and _is_self_attr(stmt.test.operand, "_active") and len(stmt.body) == 1
-            and isinstance(stmt.body[0], ast.Return) and stmt.body[0].value is None and not stmt.orelse)
+    """`if not self._active: return` (also `return None`)"""
+    if not (isinstance(stmt, ast.If) and _tests_inactive(stmt.test) and len(stmt.body) == 1 and not stmt.orelse):
+        return False
+    r = stmt.body[0]
+    return isinstance(r, ast.Return) and (r.value is None or (isinstance(r.value, ast.Constant) and r.value.value is None))
 
 
 def _calls(node, method):
